@@ -42,16 +42,21 @@ def _collapse_invariants(
     invariants = []  # type: List[Contract]
 
     # Add invariants of the bases
+    bases_have_invariants = False
     for base in bases:
         if hasattr(base, invariants_dunder):
+            bases_have_invariants = True
             invariants.extend(getattr(base, invariants_dunder))
 
     # Add invariants in the current namespace
     if invariants_dunder in namespace:
         invariants.extend(namespace[invariants_dunder])
 
-    # Change the final invariants in the namespace
-    if invariants:
+    # Change the final invariants in the namespace.
+    #
+    # The class needs its own list even if it is empty; otherwise, the invariant decorator would
+    # append to the list of a base class.
+    if invariants or bases_have_invariants:
         namespace[invariants_dunder] = invariants
 
     # endregion
